@@ -123,6 +123,11 @@ class CFG(object):
             out |= self.reach([s], avoid=avoid, exc=exc)
         return out
 
+    def in_cycle(self, n):
+        """Can n execute more than once per call (is it on a cycle of the graph)?  A statement written inside a loop body that only
+        leads out of the function is not."""
+        return n in self.reach([n], exc=True)
+
     def dominates(self, a_set, b, exc=True):
         """True iff every path entry->b passes through some node of a_set (b itself not in a_set counts as not)."""
         a_set = set(a_set)
